@@ -1078,6 +1078,11 @@ pub fn gen_sysex(r: &mut Rng) -> History {
     }
     e.msg(0xB0 | ch, &[7, 99], false);
     e.msg(0x80 | ch, &[60, 0], false);
+    // ... and a controller reset after all that must still restore the power-on values
+    if r.chance(0.5) {
+        e.msg(0xB0 | ch, &[121, 0], false);
+        e.msg(0xB0 | ch, &[7, 127], false);
+    }
     History { channel_arg, ops: e.ops }
 }
 
@@ -1154,6 +1159,13 @@ pub fn repeat_storms(ctx: &Ctx, want: &str) -> Report {
             jobs.push((*c, kind));
         }
     }
+    // kind 10: n - d on/off pairs, then a rolled chord released newest-first (a press-order clock that wraps, or is
+    // rescaled, at 2^8 / 2^16 note-ons must not lose the order of keys pressed around that moment)
+    for c in [256u64, 65_536] {
+        for d in 0..10u64 {
+            jobs.push((c - d, 10));
+        }
+    }
     par_shards(ctx, jobs.len(), |j| {
         let mut rep = Report::new();
         let (n, kind) = jobs[j];
@@ -1163,12 +1175,12 @@ pub fn repeat_storms(ctx: &Ctx, want: &str) -> Report {
         let mut e = Emit::new();
         e.ops.push(Op::Retrigger(kind % 2 == 0));
         // Last priority for the note patterns of the largest counts (a strike-order stamp would wrap there)
-        e.ops.push(Op::Priority(if n >= 1 << 31 || kind == 4 { 0 } else { (j % 3) as u8 }));
+        e.ops.push(Op::Priority(if n >= 1 << 31 || kind == 4 || kind == 10 { 0 } else { (j % 3) as u8 }));
         e.msg(0x90 | ch, &[drone, 90], false);
         e.ops.push(Op::PollRising);
         e.ops.push(Op::PollFalling);
         let pattern: Vec<u8> = match kind {
-            0 | 1 | 4 => vec![0x90 | ch, key, 100, 0x80 | ch, key, 0],
+            0 | 1 | 4 | 10 => vec![0x90 | ch, key, 100, 0x80 | ch, key, 0],
             2 => vec![0x90 | ch, key, 100, key, 0],                              // running status, velocity-0 release
             3 => vec![0xB0 | ch, 1, 10, 1, 20, 0xE0 | ch, 5, 6, 0xB0 | ch, 7, 3], // controllers and pitch bend
             // messages that never complete, or that are not for this receiver: whatever counts them must not wrap
@@ -1192,6 +1204,24 @@ pub fn repeat_storms(ctx: &Ctx, want: &str) -> Report {
         } else {
             e.ops.push(Op::Repeat(pattern, n));
         }
+        if kind == 10 {
+            // rolled chord, highest note first, released newest-first: after every release the most recent outstanding
+            // key must be reported
+            let chord = [drone + 30, drone + 20, drone + 10, drone + 5, drone + 3];
+            for (q, k) in chord.iter().enumerate() {
+                e.msg(0x90 | ch, &[*k, 60 + q as u8], q % 2 == 1);
+            }
+            for k in chord.iter().rev() {
+                e.msg(0x80 | ch, &[*k, 0], false);
+            }
+        }
+        // two keys pressed after the storm, the newer one released: the fallback is the other new key, not the key held
+        // since before the storm
+        let (ka, kb) = (drone + 9, drone + 4);
+        e.msg(0x90 | ch, &[ka, 70], false);
+        e.msg(0x90 | ch, &[kb, 71], true);
+        e.msg(0x80 | ch, &[kb, 0], false);
+        e.msg(0x80 | ch, &[ka, 0], false);
         e.ops.push(Op::PollRising);
         e.ops.push(Op::PollFalling);
         e.ops.push(Op::PollRising);
@@ -1748,6 +1778,11 @@ pub fn run(ctx: &Ctx, prop: &str) -> Report {
                     let h = if j % 3 == 2 {
                         let c = r.below(16) as u8;
                         gen_rpn_nrpn(&mut r, c)
+                    } else if j % 7 == 4 || j % 7 == 0 {
+                        // universal SysEx messages (master volume, GM on/off, ...) are not controllers: no controller
+                        // output may follow them, nor may they change what a later controller reset restores
+                        rep.count("midi.c18.sysex_histories", 1);
+                        gen_sysex(&mut r)
                     } else if j % 7 == 3 {
                         // controllers while the note buffer fills up and overruns (they must not care)
                         let mut h = if r.chance(0.5) { gen_notes_x(&mut r, 200, 0.0, false, true) } else { gen_full_buffer(&mut r, false) };
